@@ -380,3 +380,8 @@ func FuzzParsePath(f *testing.F) {
 		}
 	})
 }
+
+// FuzzGenStrings: the structured generator driven by Go's coverage-guided fuzzer (thorough tier).
+func FuzzGenStrings(f *testing.F) {
+	h.FuzzSub(f, h.Sub[strCase]{Prop: "C10", Name: "parse-strings", Gen: genString, Check: checkString})
+}
